@@ -36,6 +36,7 @@ type pScript struct {
 		At   int    `json:"at"`
 		Then string `json:"then"`
 		Tail int    `json:"tail"`
+		Hold int    `json:"hold"` // milliseconds the sink stays stalled after the producer has run into the full buffers
 	} `json:"stall,omitempty"`
 }
 
@@ -515,6 +516,9 @@ func pStall(sc pScript, sink *pSink, rs *RawSocket, ch chan []byte, done chan st
 		panic(pInfra("the producer never blocked on a sink that does not read"))
 	}
 	// message k is being offered in the background; message k-1 is the one the producer is stuck in
+	if sc.Stall.Hold > 0 { // a sink that is slow, not dead: it stays like this for a while
+		time.Sleep(time.Duration(sc.Stall.Hold) * time.Millisecond)
+	}
 	if sc.Stall.Then == "rst" {
 		sink.rst()
 		res.Events = append(res.Events, pEvent{Ev: "rst"})
